@@ -1,7 +1,8 @@
 mod conc;
 mod tbl;
 mod cfg;
-mod fixcheck;
+mod crash;
+mod fifo;
 // throw-away design-time campaign: real tree vs versioned oracle (snapshots, clear, drop_range, ingest, weak deletes, audit)
 use lsm_tree::{AbstractTree, AnyTree, Config, Guard, KvSeparationOptions, SeqNo, SequenceNumberCounter, config::BlockSizePolicy};
 use std::collections::{BTreeMap, BTreeSet};
@@ -101,6 +102,31 @@ fn audit(tree: &AnyTree) -> Result<(), String> {
     if tree.get_highest_persisted_seqno() != max_seq { return Err(format!("C18 persisted hwm {:?} vs real {:?}", tree.get_highest_persisted_seqno(), max_seq)); }
     Ok(())
 }
+
+type VSnap = Vec<(usize, usize, u64, BTreeSet<K>)>; // level, run, table id, user keys
+fn vsnap(tree: &AnyTree) -> VSnap {
+    let v = tree.current_version(); let mut out = vec![];
+    for (li, lvl) in v.iter_levels().enumerate() { for (ri, run) in lvl.iter().enumerate() { for t in run.iter() {
+        out.push((li, ri, t.id(), t.iter().map(|x| x.unwrap().key.user_key.to_vec()).collect())); } } }
+    out
+}
+/// key-level admissibility of the observed step (DESIGN.md section 4)
+fn admissible(before: &VSnap, after: &VSnap) -> Result<Option<&'static str>, String> {
+    let bid: BTreeSet<u64> = before.iter().map(|t| t.2).collect(); let aid: BTreeSet<u64> = after.iter().map(|t| t.2).collect();
+    let removed: Vec<&(usize, usize, u64, BTreeSet<K>)> = before.iter().filter(|t| !aid.contains(&t.2)).collect();
+    let added: Vec<&(usize, usize, u64, BTreeSet<K>)> = after.iter().filter(|t| !bid.contains(&t.2)).collect();
+    let moved: Vec<&(usize, usize, u64, BTreeSet<K>)> = before.iter().filter(|t| after.iter().any(|a| a.2 == t.2 && a.0 != t.0)).collect();
+    let (inputs, dest, kind): (Vec<&(usize, usize, u64, BTreeSet<K>)>, usize, &'static str) =
+        if !removed.is_empty() && !added.is_empty() { let d = added[0].0; if added.iter().any(|a| a.0 != d) { return Err("outputs in several levels".into()); } (removed, d, "merge") }
+        else if !moved.is_empty() { let d = after.iter().find(|a| a.2 == moved[0].2).unwrap().0; (moved, d, "move") }
+        else { return Ok(None) };
+    for t in &inputs { for x in before.iter() { if inputs.iter().any(|i| i.2 == x.2) { continue; }
+        if t.3.is_disjoint(&x.3) { continue; }
+        let x_before_t = (x.0, x.1) < (t.0, t.1);
+        let ok = if kind == "merge" && dest == 6 { x_before_t && x.0 < dest } else { (x_before_t && x.0 < dest) || (!x_before_t && x.0 >= dest) };
+        if !ok { return Err(format!("{kind} into L{dest}: input table {} (L{} r{}) shares keys with non-input table {} (L{} r{})", t.2, t.0, t.1, x.2, x.0, x.1)); } } }
+    Ok(Some(kind))
+}
 fn scan(tree: &AnyTree, s: SeqNo, lo: Bound<K>, hi: Bound<K>, rev: bool) -> Vec<(K, Vec<u8>)> {
     let it = tree.range::<K, _>((lo, hi), s, None);
     let f = |g: lsm_tree::IterGuardImpl| { let (k, v) = g.into_inner().unwrap(); (k.to_vec(), v.to_vec()) };
@@ -128,7 +154,8 @@ fn main() {
     if std::env::args().nth(1).as_deref() == Some("conc") { conc::main(); return; }
     if std::env::args().nth(1).as_deref() == Some("tbl") { tbl::main(); return; }
     if std::env::args().nth(1).as_deref() == Some("cfg") { cfg::main(); return; }
-    if std::env::args().nth(1).as_deref() == Some("fixcheck") { fixcheck::main(); return; }
+    if std::env::args().nth(1).as_deref() == Some("crash") { crash::main(); return; }
+    if std::env::args().nth(1).as_deref() == Some("fifo") { fifo::main(); return; }
     let seed0: u64 = std::env::args().nth(1).map(|s| s.parse().unwrap()).unwrap_or(1);
     let cases: u64 = std::env::args().nth(2).map(|s| s.parse().unwrap()).unwrap_or(100);
     let feats: String = std::env::args().nth(3).unwrap_or_else(|| "snap,clear,droprange,ingest,weak,blob,movedown,filter".into());
@@ -172,7 +199,7 @@ fn main() {
                 let s = seqno.next(); tree.remove(k.clone(), s); vis.fetch_max(s + 1); or.evs.push(Ev::Del(s, k.clone())); what = format!("remove {}@{s}", hex(&k));
             } else if r < 58 { let w = wm(&mut rng, &snaps, &vis); tree.flush_active_memtable(w).unwrap(); what = format!("flush wm={w}");
             } else if r < 72 { let w = wm(&mut rng, &snaps, &vis); let l0 = *rng.pick(&[1u8, 2, 4]); let ts = *rng.pick(&[1u64, 64, 4096]);
-                tree.compact(Arc::new(lsm_tree::compaction::Leveled::default().with_l0_threshold(l0).with_table_target_size(ts)), w).unwrap(); what = format!("leveled l0={l0} ts={ts} wm={w}");
+                let bsnap = vsnap(&tree); tree.compact(Arc::new(lsm_tree::compaction::Leveled::default().with_l0_threshold(l0).with_table_target_size(ts)), w).unwrap(); what = format!("leveled l0={l0} ts={ts} wm={w}"); match admissible(&bsnap, &vsnap(&tree)) { Ok(Some(k)) => { *stats.entry(if k == "merge" { "adm-merge" } else { "adm-move" }).or_default() += 1; } Ok(None) => {} Err(e) => { println!("INADMISSIBLE case {case}: {e}"); *stats.entry("INADMISSIBLE").or_default() += 1; } }
             } else if r < 76 { let w = wm(&mut rng, &snaps, &vis); let ts = *rng.pick(&[1u64, 64, u64::MAX]); tree.major_compact(ts, w).unwrap(); what = format!("major ts={ts} wm={w}");
             } else if r < 80 { tree.flush_active_memtable(0).unwrap(); drop(tree); tree = open(dir.path(), &seqno, &vis, bs, blob, fac.clone()); snaps.clear(); what = "flush+reopen (snapshots released)".into();
             } else if r < 86 && on("snap") { if snaps.len() < 3 { let s = vis.get(); snaps.push(s); what = format!("snapshot S={s}"); *stats.entry("snap").or_default() += 1; } else { let i = rng.below(snaps.len() as u64) as usize; let s = snaps.remove(i); what = format!("release S={s}"); }
@@ -193,7 +220,7 @@ fn main() {
                 let mut ks: Vec<K> = keys.iter().filter(|k| !weak_state.contains_key(*k) && !once_keys.contains(*k)).filter(|_| rng.below(3) == 0).cloned().collect(); ks.sort();
                 if ks.is_empty() { continue; }
                 let mut ing = tree.ingestion().unwrap(); let mut items = vec![];
-                for k in &ks { if rng.below(4) == 0 { ing.write_tombstone(k.clone()).unwrap(); items.push((k.clone(), None)); } else { let v = format!("{}@ingest{}", hex(k), seqno.get()).into_bytes(); ing.write(k.clone(), v.clone()).unwrap(); items.push((k.clone(), Some(v))); } }
+                for k in &ks { if rng.below(4) == 0 { ing.write_tombstone(k.clone()).unwrap(); items.push((k.clone(), None)); } else { let v = format!("{}@ingest", hex(k)).into_bytes(); ing.write(k.clone(), v.clone()).unwrap(); items.push((k.clone(), Some(v))); } }
                 ing.finish().unwrap(); let g = vis.get() - 1;
                 for (k, v) in items { match v { Some(v) => or.evs.push(Ev::Put(g, k, v)), None => or.evs.push(Ev::Del(g, k)) } }
                 what = format!("ingest {} keys @{g}", ks.len()); *stats.entry("ingest").or_default() += 1;
@@ -202,9 +229,6 @@ fn main() {
                 if !empty_between { continue; } tree.compact(Arc::new(lsm_tree::compaction::MoveDown(src, 6)), 0).unwrap(); what = format!("movedown {src}->6"); *stats.entry("movedown").or_default() += 1;
             } else { continue; }
             log.push(what.clone());
-            if std::env::var("DEBUGCASE").ok().and_then(|x| x.parse::<u64>().ok()) == Some(case) { let dk = std::env::var("DEBUGKEY").unwrap(); let v = tree.current_version();
-                let mut d = vec![]; for (li, lvl) in v.iter_levels().enumerate() { for (ri, run) in lvl.iter().enumerate() { for t in run.iter() { for it in t.iter() { let it = it.unwrap(); if hex(&it.key.user_key) == dk { d.push(format!("L{li}r{ri}t{}:{}:{:?}", t.id(), it.key.seqno, it.key.value_type)); } } } } }
-                log.push(format!("      tables: {}", d.join(" "))); }
             { let mut fl = flog.lock().unwrap(); let c = seqno.get().saturating_sub(1);
               for (k, v, code, rep) in fl.drain(..) { *stats.entry("filter-shown").or_default() += 1; log.push(format!("     filter saw {} = {:?} -> verdict {code} (oracle newest = {:?})", hex(&k), String::from_utf8_lossy(&v), or.get(SeqNo::MAX, &k).map(|x| x.map(|y| String::from_utf8_lossy(&y).to_string()))));
                 if or.get(SeqNo::MAX, &k) == Some(Some(v.clone())) { *stats.entry("filter-newest").or_default() += 1;
